@@ -74,3 +74,52 @@ Definition C09_example : uamiv :=
                  ([2001; 1; 2001; 2], [[[31; 32]; [33; 34]]; [[41; 42]; [43; 44]]])] |}.
 Example C09_hyp_inhabited : wf C09_example = true /\ u_steps C09_example <> [] /\ length (enc C09_example) = 255%nat.
 Proof. vm_compute. repeat split; try reflexivity. discriminate. Qed.
+
+(* ======================================================================================================
+   CAMx LATERAL BOUNDARY files (Model/Lbdy.v; reader model assembled from the TRANSLATED dtype literals and
+   block-size expressions of camxfiles/lateral_boundary/Memmap.py, Gen/Camx.v lm_ definitions)
+   ====================================================================================================== *)
+From PNC Require Import Model.Lbdy Proofs.LbdyProofs.
+
+(* the record-walking spec decoder recovers exactly the content (header fields, species names, the four
+   edge-definition records, every time header and every boundary value) from the spec encoding *)
+Theorem C09_lbdy_dec_enc : forall l, lb_wf l = true -> lb_dec (lb_enc l) = Some l.
+Proof. exact lb_dec_enc. Qed.
+Print Assumptions C09_lbdy_dec_enc.
+
+(* the library's stride-based Memmap reader model presents exactly the encoded content of every well-formed
+   reference-encoded lateral-boundary file *)
+Theorem C09_lbdy_reader_presents_content : forall l, lb_wf l = true -> l_steps l <> [] ->
+  lb_mm_read (lb_enc l) (4 * Z.of_nat (length (lb_enc l))) = Ok (lb_view_of l).
+Proof. exact lb_mm_read_enc. Qed.
+Print Assumptions C09_lbdy_reader_presents_content.
+
+(* translation validation, lateral_boundary/Write.py against Memmap.py: the writer's header dtypes mirror the
+   reader's field by field, and every pad it writes (time record, species record, edge-definition record, data
+   record) is itemsize - 8 of the reader's dtype for that record, for all grid sizes *)
+Theorem C09_lbdy_writer_layout_mirrors_reader :
+  map (fun f => (snd (fst f), snd f)) lw_emiss_hdr_fmt = map (fun f => (snd (fst f), snd f)) lm_emiss_hdr_fmt /\
+  map (fun f => (snd (fst f), snd f)) lw_grid_hdr_fmt = map (fun f => (snd (fst f), snd f)) lm_grid_hdr_fmt /\
+  map (fun f => (snd (fst f), snd f)) lw_cell_hdr_fmt = map (fun f => (snd (fst f), snd f)) lm_cell_hdr_fmt /\
+  map (fun f => (snd (fst f), snd f)) lw_time_hdr_fmt = map (fun f => (snd (fst f), snd f)) lm_date_time_fmt /\
+  lw_spc_fmt = lm_spc_fmt /\ lw_time_pad = dtype_itemsize lw_time_hdr_fmt - 8 /\
+  (forall nspec, lw_spc_pad nspec = nspec * dtype_itemsize lm_spc_fmt) /\
+  (forall b, lw_buf_edge b = dtype_itemsize (lm_bound_fmt b) - 8) /\
+  (forall n m, lw_buf_data (n * m) = dtype_itemsize (lm_spc_we_fmt n m) - 8) /\
+  (forall n m, lw_buf_data (n * m) = dtype_itemsize (lm_spc_sn_fmt n m) - 8).
+Proof. exact lb_layout_writer_mirrors_reader. Qed.
+Print Assumptions C09_lbdy_writer_layout_mirrors_reader.
+
+(* Non-vacuity: a concrete well-formed two-step, two-species file on a 3x2 grid with 2 layers *)
+Definition C09_lbdy_example : lbdy :=
+  {| l_name := repeat 65 10; l_note := repeat 66 60; l_itzon := 0; l_dates := [2001; 0; 2001; 2];
+     l_gpre := repeat 7 7; l_nx := 3; l_ny := 2; l_nz := 2; l_gpost := [2; 0; 5; 5; 0];
+     l_spc := [repeat 80 10; repeat 81 10];
+     l_edges := std_edges 3 2;
+     l_steps := [([2001; 0; 2001; 1], [Quad [1;2;3;4] [5;6;7;8] [9;10;11;12;13;14] [15;16;17;18;19;20];
+                                       Quad [21;22;23;24] [25;26;27;28] [29;30;31;32;33;34] [35;36;37;38;39;40]]);
+                 ([2001; 1; 2001; 2], [Quad [41;42;43;44] [45;46;47;48] [49;50;51;52;53;54] [55;56;57;58;59;60];
+                                       Quad [61;62;63;64] [65;66;67;68] [69;70;71;72;73;74] [75;76;77;78;79;80]])] |}.
+Example C09_lbdy_hyp_inhabited :
+  lb_wf C09_lbdy_example = true /\ l_steps C09_lbdy_example <> [] /\ length (lb_enc C09_lbdy_example) = 499%nat.
+Proof. vm_compute. repeat split; try reflexivity. discriminate. Qed.
